@@ -171,6 +171,9 @@ type roundCase struct {
 	// side: a fork the victim has ingested through AddBlocks without adopting it (stored, never
 	// applied: header-level states only)
 	side []types.Block
+	// pre: something another peer does to the victim before the round (its operations and
+	// observations are recorded in the case)
+	pre func(c *vh.Case, reg *netx.Reg, victim *netx.Node, ip string)
 }
 
 func (rc *roundCase) run(ip string) *vh.Case {
@@ -218,6 +221,11 @@ func (rc *roundCase) run(ip string) *vh.Case {
 		}
 		flush()
 		c.Op(op, fmt.Sprintf("err %s tip %d", res, reg.IDOfHeader(victim.CM.Tip().ID)))
+	}
+
+	if rc.pre != nil {
+		rc.pre(c, reg, victim, ip)
+		flush()
 	}
 
 	s := newSession(rc.w.nt, reg, rc.view, rc.sc, victim)
